@@ -823,8 +823,41 @@ fn images_one<A: Allocator>(dir: &str, tag: &str, reserved: u32, bad: &mut u32) 
   let _ = std::fs::remove_file(&p);
 }
 
+/// "Construction fails exactly when the capacity cannot hold the prefix"
+fn small_capacity_one<A: Allocator>(dir: &str, tag: &str, reserved: u32, bad: &mut u32) {
+  for (file, unify) in [(true, true), (false, true), (false, false)] {
+    let base = Options::new().with_reserved(reserved).with_unify(unify);
+    let prefix = if file || unify { base.data_offset_unify::<A>() } else { base.data_offset::<A>() } as u32;
+    for cap in [prefix.saturating_sub(9), prefix - 1, prefix, prefix + 1] {
+      if cap == 0 { continue; }
+      let p = format!("{dir}/small_{tag}_{reserved}_{cap}.arena");
+      let _ = std::fs::remove_file(&p);
+      let o = base.with_capacity(cap);
+      let r: std::io::Result<A> = if file { unsafe { o.with_create_new(true).with_read(true).with_write(true).map_mut::<A, _>(&p) } } else { o.map_anon::<A>() };
+      let want_ok = cap >= prefix;
+      match &r {
+        Ok(a) if !want_ok => {
+          println!("NATIVE L1 violated: [{tag} file={file} unify={unify} reserved={reserved}] capacity {cap} < prefix {prefix} accepted (data_offset {} capacity {})", a.data_offset(), a.capacity());
+          *bad += 1;
+        }
+        Err(e) if want_ok => {
+          println!("NATIVE L1 violated: [{tag} file={file} unify={unify} reserved={reserved}] capacity {cap} >= prefix {prefix} refused: {e}");
+          *bad += 1;
+        }
+        _ => {}
+      }
+      drop(r);
+      let _ = std::fs::remove_file(&p);
+    }
+  }
+}
+
 fn create_check(dir: &str) -> i32 {
   let mut bad = 0u32;
+  for reserved in [0u32, 1, 7, 8, 100] {
+    small_capacity_one::<Arena>(dir, "sync", reserved, &mut bad);
+    small_capacity_one::<rarena_allocator::unsync::Arena>(dir, "unsync", reserved, &mut bad);
+  }
   for reserved in [0u32, 1, 5, 8, 13, 64] {
     images_one::<Arena>(dir, "sync", reserved, &mut bad);
     images_one::<rarena_allocator::unsync::Arena>(dir, "unsync", reserved, &mut bad);
